@@ -34,6 +34,8 @@ def configs(tier, rng):
     allc.append(dict(fam="qrelu", bits=bits, integer=integer, slope=s, iqc=iqc, rub=rub, ste=ste, f=f))
   for bits, integer, kn, sym, f, alpha in itertools.product([1, 2, 4, 8], [0, 1, 2], [1, 0], [0, 1], fs, [None, 0.5]):
     allc.append(dict(fam="qlin", bits=bits, integer=integer, kn=kn, sym=sym, f=f, alpha=alpha))
+  for bits, integer, sym, f, alpha in itertools.product([2, 4, 8], [0, 1], [0, 1], fs, ["auto", "auto_po2"]):
+    allc.append(dict(fam="qlin", bits=bits, integer=integer, kn=1, sym=sym, f=f, alpha=alpha))
   for bits, ste, f, mv in itertools.product([3, 4, 6], [True, False], fs, [None, 2.0]):
     allc.append(dict(fam="po2", bits=bits, ste=ste, f=f, mv=mv))
     for s in (None, 2):
@@ -50,7 +52,8 @@ def configs(tier, rng):
   if tier == "thorough":
     return allc
   def key(c):
-    return (c["fam"], c.get("ste"), c.get("slope") is None, c.get("mv") is None, c.get("rub") is None, c.get("iqc"), str(c.get("alpha")), c.get("use01"), c.get("thr"))
+    return (c["fam"], c.get("ste"), c.get("slope") is None, c.get("mv") is None, c.get("rub") is None, c.get("iqc"), str(c.get("alpha")), c.get("use01"), c.get("thr"),
+            c["f"] if (c["fam"] == "qlin" and isinstance(c.get("alpha"), str)) else None)    # every noise factor with a data-dependent linear scale
   return vlib.stratified(allc, key, 90, rng, per=1)
 
 
@@ -68,7 +71,7 @@ def build(c):
     return Q.quantized_relu(c["bits"], c["integer"], 0, 0.0 if c["slope"] is None else 2.0 ** -c["slope"],
                             relu_upper_bound=c["rub"], is_quantized_clip=c["iqc"], use_ste=c["ste"], qnoise_factor=c["f"])
   if f == "qlin":
-    a = None if c["alpha"] is None else np.float32(c["alpha"])
+    a = None if c["alpha"] is None else (c["alpha"] if isinstance(c["alpha"], str) else np.float32(c["alpha"]))
     return Q.quantized_linear(c["bits"], c["integer"], c["sym"], keep_negative=bool(c["kn"]), alpha=a, qnoise_factor=c["f"])
   if f == "po2":
     return Q.quantized_po2(c["bits"], max_value=c["mv"], use_ste=c["ste"], qnoise_factor=c["f"])
@@ -113,6 +116,8 @@ def expr_and_kinks(c):
   if f == "po2":
     e = f"(ste Var {R(F(c['f']))} {zero})" if c["ste"] else f"(non_ste Var {R(F(c['f']))} {zero})"
     return e, [0.0, 1.0, 2.0]
+  if f == "qlin" and isinstance(c["alpha"], str):
+    return "AUTO-LINEAR", [0.0]
   if f == "qlin":
     alpha = Fraction(1) if c["alpha"] is None else F(c["alpha"])
     qs = alpha * Fraction(2) ** (c["integer"] - c["bits"] + c["kn"])
@@ -165,7 +170,7 @@ def main():
     scale = max([abs(k) for k in kinks] + [1.0])
     xs += list(rng.normal(0, scale, size=24)) + [1e-6, -1e-6, 3 * scale, -3 * scale]
     x = np.asarray(xs, dtype=np.float32)
-    if c["fam"] in ("binary", "ternary") or (c["fam"] == "qbits" and isinstance(c["alpha"], str)):
+    if c["fam"] in ("binary", "ternary") or (c["fam"] in ("qbits", "qlin") and isinstance(c["alpha"], str)):
       x = x[: (x.size // 2) * 2].reshape(-1, 2)
     xt = tf.constant(x)
     with tf.GradientTape() as tape:
@@ -182,6 +187,26 @@ def main():
     if not np.all(np.isfinite(g)):
       i = int(np.where(~np.isfinite(g))[0][0])
       rep.violation(f"non-finite-gradient-{desc(c)}", f"{desc(c)}: gradient {g[i]} at x={xf[i]}", {"config": c, "x_bits": env.f2b([xf[i]])[0]})
+      continue
+    if e == "AUTO-LINEAR":
+      # data-dependent scale: the scale is a detached statistic of the tensor, so the surrogate is x + f * (clip(x) - x) with the clip
+      # range [lo, hi] * scale of THIS call: gradient (1 - f) + f inside, (1 - f) outside, either on an edge; every entry, also the one
+      # that holds its channel's maximum
+      ub = c["bits"] - 1
+      lo_c, hi_c = -(2 ** ub) + c["sym"], 2 ** ub - 1
+      qs = np.broadcast_to(np.asarray(q.quantization_scale, dtype=np.float64), x.shape).reshape(-1)
+      xv = xf.astype(np.float64) / qs
+      m_lo, m_hi = 2e-6 * abs(lo_c) + 1e-7, 2e-6 * abs(hi_c) + 1e-7
+      inside = (xv > lo_c + m_lo) & (xv < hi_c - m_hi)
+      edge = ~inside & (xv >= lo_c - m_lo) & (xv <= hi_c + m_hi)
+      fq = float(c["f"])
+      n_or += xf.size
+      for i in range(xf.size):
+        ok = abs(g[i] - 1.0) < 1e-5 if inside[i] else ((abs(g[i] - 1.0) < 1e-5 or abs(g[i] - (1.0 - fq)) < 1e-5) if edge[i] else abs(g[i] - (1.0 - fq)) < 1e-5)
+        if not ok:
+          rep.violation(f"gradient-{desc(c)}", f"{desc(c)}: tf gradient {float(g[i])} at x={xf[i]} (x / scale = {xv[i]:.6f}, code range [{lo_c}, {hi_c}]) but the straight-through "
+                        f"surrogate's gradient is {1.0 if inside[i] else 1.0 - fq}", {"config": c, "x_bits": env.f2b([xf[i]])[0], "tf_gradient": float(g[i])})
+          break
       continue
     if e is None:
       # unscaled binary/ternary: tanh' (float32 oracle), judged against float64 with 2^-20 slack
